@@ -368,12 +368,12 @@ Qed.
 Definition spec_res (v : variant) (e : element) : ores :=
   match e with
   | EComp cl => RSyms (map (spec_sym v Private cl) (c_decls cl))
-  | EExt p m => RExt (mkE p Private (conv_args m))
+  | EExt p m _ => RExt (mkE p Private (conv_args m))
   | _ => ROther
   end.
 Definition erase_res (r : ores) : ores := match r with RSyms ss => RSyms (map erase_sym ss) | x => x end.
 Definition names_el (e : element) : list string := match e with EComp cl => map d_name (c_decls cl) | _ => [] end.
-Definition imports_el (e : element) : list import := match e with EImp i => [i] | _ => [] end.
+Definition imports_el (e : element) : list import := match e with EImp i _ => [i] | _ => [] end.
 Definition cname_el (e : element) : list string := match e with ECls _ n _ _ _ _ => [n] | _ => [] end.
 
 Fixpoint fold_imp (v : variant) (is_ : list import) (d : list (string * oimp)) : result (list (string * oimp)) :=
@@ -406,7 +406,7 @@ Lemma do_element_shape v path e k l r cls k' l' :
   /\ fold_imp v (imports_el e) (k_imports k) = Ok (k_imports k')
   /\ k_classes k' = k_classes k ++ cname_el e.
 Proof.
-  destruct e as [cl|p m|i|ct n cm secs eqs algs]; cbn [do_element]; intros H.
+  destruct e as [cl|p m an|i an|ct n cm secs eqs algs]; cbn [do_element]; intros H.
   - destruct (do_clause v cl (k_seen k, l)) as [[ss [seen' l1]]|] eqn:Hc; [|discriminate].
     inversion H; subst. apply do_clause_ok in Hc. destruct Hc as (A & B & C & D & _).
     cbn [erase_res spec_res names_el imports_el cname_el k_seen k_imports k_classes fold_imp].
@@ -500,7 +500,7 @@ Qed.
 Definition sec_syms (v : variant) (vs : vis) (els : list element) : list osym :=
   flat_map (fun e => match e with EComp cl => map (spec_sym v vs cl) (c_decls cl) | _ => [] end) els.
 Definition sec_exts (vs : vis) (els : list element) : list oext :=
-  flat_map (fun e => match e with EExt p m => [mkE p vs (conv_args m)] | _ => [] end) els.
+  flat_map (fun e => match e with EExt p m _ => [mkE p vs (conv_args m)] | _ => [] end) els.
 Fixpoint class_syms_aux (v : variant) (vs : list vis) (secs : list (label * list element)) : list osym :=
   match vs, secs with v1 :: vr, (_, els) :: r => sec_syms v v1 els ++ class_syms_aux v vr r | _, _ => [] end.
 Fixpoint class_exts_aux (vs : list vis) (secs : list (label * list element)) : list oext :=
@@ -776,8 +776,8 @@ Definition example_class : element :=
     [(Unl, [EComp (mkC ["parameter"; "input"] ["Real"] (Some ["2"])
                        [mkD "a" None (Some (Modif (Some [Arg "start" (Some (Modif None (Some "1")))]) (Some "3"))) "c";
                         mkD "b" None None ""]);
-            EExt ["Base"] (Some [Arg "k" (Some (Modif None (Some "2")))]);
-            EImp (ImpQual ["Lib"; "X"])]);
+            EExt ["Base"] (Some [Arg "k" (Some (Modif None (Some "2")))]) false;
+            EImp (ImpQual ["Lib"; "X"]) false]);
      (Pub, [EComp (mkC [] ["Integer"] None [mkD "i" (Some ["4"]) None ""]);
             ECls "record" "R" "" [(Unl, [real1 "a"])] [] []]);
      (Pro, [real1 "p"])]
